@@ -1,7 +1,7 @@
 (* C11 — The framework is quiescent between reaction trees.  Statements only; proofs in proofs/{RunnerInv,TicketInv,TopLevel}.v.
    `run P fuel` executes the top-level operations of P one after the other; every one of them is an outermost flush. *)
 From Cobweb Require Import Machine.
-From CobwebProofs Require Import RunnerInv TicketInv PollSpec QuietSpec TopLevel.
+From CobwebProofs Require Import RunnerInv TicketInv PollSpec QuietSpec DataSpec TopLevel.
 
 (* after ANY sequence of top-level operations of ANY program (aborted, postponed, discarded, self-despawning commands
    included): the tree counter is 0, nothing is postponed, no system command is missing its callback, none of the four
@@ -36,6 +36,11 @@ Check quiescent_after_every_tree : forall (P : program) (fuel : nat) (w' : world
 Theorem no_unpolled_removal_or_despawn_when_a_tree_returns : forall (P : program) f t su cl w w', RSeq w -> exec P f (IRunner t su cl) w = Ok w' -> Quiet w'.
 Proof. exact tree_ends_polled. Qed.
 
+(* "no residue": no event bookkeeping entity (broadcast / entity-event / system-event data) is left when a run ends *)
+Theorem no_event_data_entity_left : forall (P : program) (fuel : nat) (w' : world), run P fuel = Ok w' ->
+  forall d, alookup d (dataents w') = None.
+Proof. exact no_data_entity_left. Qed.
+
 (* non-vacuity: a program whose single tree postpones two self-sent system events and aborts one aimed at a dead system *)
 Definition ex_prog : program :=
   mkProgram [mkSys 101 Plain false true None; mkSys 102 Plain false false None]
@@ -56,3 +61,4 @@ Print Assumptions quiescent_between_trees.
 Print Assumptions runner_invariant.
 Print Assumptions tracker_invariant.
 Print Assumptions no_unpolled_removal_or_despawn_when_a_tree_returns.
+Print Assumptions no_event_data_entity_left.
